@@ -194,6 +194,12 @@ def partialOfYearMonth (r : IsoDate) : Out PartialDate := do
 def monthDayNew (m d : Int) (ov : Overflow) (refYear : Option Int) : Out IsoDate :=
   IsoDate.newWithOverflow (refYear.getD 1972) m d ov
 
+/-- `Calendar::month_day_from_partial` (ISO): the day is regulated in the year the record gives, then the month-day
+    is held in the reference year. -/
+def monthDayFromPartial (p : PartialDate) (ov : Overflow) : Out IsoDate := do
+  let (_, m, d) ← resolvedFieldsIso p ov .monthDay
+  monthDayNew m d ov none
+
 /-- `PlainDate::to_plain_year_month` -/
 def dateToYearMonth (r : IsoDate) : Out IsoDate := do
   let p ← ({ year := none, month := none, monthCode := none, day := none, era := false, eraYear := none } : PartialDate).withFallback
